@@ -12,6 +12,7 @@ import (
 	"strconv"
 	"strings"
 	"sync"
+	"sync/atomic"
 	"syscall"
 	"time"
 )
@@ -178,10 +179,17 @@ func RunIsolated(ch *Check, c *Ctx, onlyScenario string) {
 	sem := make(chan struct{}, par)
 	var wg sync.WaitGroup
 	var keepMu sync.Mutex
+	var sawWatchdog atomic.Bool
 	for ji, j := range jobs {
 		if !ch.NoEarlyExit && (c.NumViolations() >= 3 || c.ViolationHits() >= 12) {
 			// enough witnesses: do not spend the remaining budget on a tree that is already refuted
 			c.Count("jobs.skipped_after_3_violation_keys", 1)
+			continue
+		}
+		if !ch.NoEarlyExit && sawWatchdog.Load() && c.NumViolations() >= 1 {
+			// the tree is refuted AND makes scenarios hang until the child watchdog: every further hang costs a full
+			// watchdog period and adds nothing to the verdict
+			c.Count("jobs.skipped_after_watchdog_on_refuted_tree", 1)
 			continue
 		}
 		wg.Add(1)
@@ -198,6 +206,10 @@ func RunIsolated(ch *Check, c *Ctx, onlyScenario string) {
 			from := j.from
 			attempt := 0
 			for from < j.to {
+				if attempt >= 1 && !ch.NoEarlyExit && sawWatchdog.Load() && c.NumViolations() >= 1 {
+					c.Count("jobs.cut_after_watchdog_on_refuted_tree", 1)
+					break
+				}
 				attempt++
 				tag := fmt.Sprintf("j%d-a%d", ji, attempt)
 				out := filepath.Join(runDir, tag+".out")
@@ -304,6 +316,7 @@ func RunIsolated(ch *Check, c *Ctx, onlyScenario string) {
 					class, sid = begunLine.Class, begunLine.ID
 				}
 				if timedOut {
+					sawWatchdog.Store(true)
 					c.Inconclusive(fmt.Sprintf("watchdog: child exceeded %v in scenario %s (goroutine dump in %s)", timeout, sid, errf))
 					keepMu.Lock()
 					keep = true
